@@ -129,6 +129,11 @@ def run_case(i, rng, rec, tier, state):
                 first, mid = F.names[0], F.names[len(F.names) // 2]
                 near = [first + " ", " " + first, mid + "\n", "\t" + mid, mid.replace(" ", "  ") if " " in mid else mid + "  ", mid.replace(" ", "\u00a0") if " " in mid else "\u00a0" + mid,
                         first.lower() if first.lower() != first else first.upper(), first.swapcase(), first + ".", first[:-1], first + first[-1]]
+                # a real name with one character of mark-up syntax around it (a name pasted from a template, a path, a format
+                # string ...): whatever the lookup does with an unknown name - message, suggestion, logging - must cope with it
+                for nm_ in (first, mid):
+                    near += [nm_ + "{", nm_ + "}", "{" + nm_, nm_ + "{}", "{" + nm_ + "}", nm_ + "{0}", nm_ + "%s", nm_ + "%", "%(" + nm_ + ")s",
+                             nm_ + "\\", nm_ + "\x00", nm_ + "[0]", nm_ + "*", "^" + nm_ + "$", nm_ + "'", nm_ + '"']
                 near = [x for x in dict.fromkeys(near) if x not in set(F.names)]
                 for bad in ["No Such Solid", "cube", ""] + near:
                     try:
